@@ -77,7 +77,7 @@ PLAN = {
     },
     "C13": {
         "sidecars": [],
-        "extra": ["monitors.provider:bounded"],
+        "extra": ["bounded.provider:state_handler", "monitors.provider:bounded"],
         "level": "other",
         "bounded_only": True,
         "trusted": COMMON_TRUSTED + ["run-time monitors are a bounded stand-in: they cover the shipped configurations for the stated number of events only"],
@@ -98,5 +98,12 @@ PLAN = {
         "trusted": COMMON_TRUSTED + ["model R: machine arithmetic treated as mathematical", "pow / sqrt are uninterpreted with the sidecar's axioms",
                                      "sympy (the spec derivatives are d/dx of the spec energies)"],
         "explanation": "contracts on the derivative routines of the closed-form potentials against spec derivatives; the Ewald lattice-sum clause is not decided",
+    },
+    "C02": {
+        "sidecars": ["contracts.potentials_c02"],
+        "timeout_ms": {"quick": 120000, "thorough": 600000},
+        "level": "other",
+        "trusted": COMMON_TRUSTED + ["model R: machine arithmetic treated as mathematical", "pow / sqrt uninterpreted with the sidecar's axioms"],
+        "explanation": "contracts on the displacement routines of the closed-form potentials; float totality (no arithmetic failure down to denormals) is not decided here",
     },
 }
